@@ -38,6 +38,13 @@ RULE += (" Added after the white-box review: "
          "histories may end with a merge with a non-empty result; "
          "names without extension are also loaded without it; embedded "
          "strings may contain non-ASCII letters ")
+RULE += (" Added after the second white-box review: results objects may "
+         "hold an unpacked CHILD of the parameters (one combination); the "
+         "images compared before/after a round trip also contain what the "
+         "objects themselves hold (values, totals, update counts, "
+         "parameter values, unpack index, number of variations), not only "
+         "the library's to_dict(); the '{n:d}' spec must succeed for "
+         "Python and numpy integers and give format(int(v), 'd'). ")
 
 LEVEL_TEXT = ("Generated-input search (Hypothesis, seeded, sharded) over "
               "parameter dictionaries, unpacked marks, result histories and "
@@ -372,16 +379,21 @@ def _results_case(draw, tier):
         runned = draw(st.lists(st.integers(0, 10**6), min_size=nvar,
                                max_size=nvar))
     cur = draw(st.one_of(st.just(-1), st.just(-1), st.integers(0, 10**5)))
+    # the results may belong to ONE combination of the unpacked parameters
+    # (what the runner stores per variation): index into the children
+    child = draw(st.one_of(st.none(), st.integers(0, 11)))
     return dict(part="results", params=pd["params"], exotic=exotic,
                 use_create=pd["use_create"], results=results,
-                runned_reps=runned, current_rep=cur, embed=embed)
+                runned_reps=runned, current_rep=cur, embed=embed,
+                child=child)
 
 
 # ---- filename ------------------------------------------------------------------
 @st.composite
-def _scalar_pair(draw):
+def _scalar_pair(draw, ints_only=False):
     """two descriptors of the same scalar type; second may equal the first"""
-    kind = draw(st.sampled_from(["int", "float", "str", "np"]))
+    kind = draw(st.sampled_from(["int", "np"] if ints_only else
+                                ["int", "float", "str", "np"]))
     if kind == "int":
         g = st.integers(-10**29, 10**29).map(lambda v: dict(t="int", v=v))
         near = lambda d: dict(t="int", v=d["v"] + 1)            # noqa
@@ -396,7 +408,9 @@ def _scalar_pair(draw):
         near = lambda d: dict(t="str", v=d["v"][:-1] + (        # noqa
             "\u03b2" if d["v"][-1] == "\u03b1" else "\u03b1"))
     else:
-        dt = draw(st.sampled_from(NP_COMMON + ("float16", "int16",
+        dt = draw(st.sampled_from(("int32", "int64", "int16", "uint64",
+                                   "uint8") if ints_only else
+                                  NP_COMMON + ("float16", "int16",
                                                "uint64")))
         g = _np_value(dt).map(lambda v: dict(t="np", dtype=dt, v=v))
         near = None
@@ -418,7 +432,13 @@ def _filename_case(draw, tier):
     n = draw(st.integers(1, 4))
     names = draw(st.permutations(["age", "temp", "factor", "label", "M",
                                   "snr"]))[:n]
-    base = [dict(name=nm, pair=draw(_scalar_pair())) for nm in names]
+    spec = draw(st.sampled_from([None, None, "conv_s", "nested_width",
+                                 "int_d", "int_d"]))
+    # a numeric spec is mostly used with integer parameters (Python or
+    # numpy integers: elements of an unpacked integer array)
+    ints = spec == "int_d" and draw(st.integers(0, 3)) > 0
+    base = [dict(name=nm, pair=draw(_scalar_pair(ints_only=ints)))
+            for nm in names]
     arr = draw(st.one_of(st.none(), _array(dtypes=("int64", "float64",
                                                    "int32", "float32"),
                                            one_d=True, min_len=1)))
@@ -429,8 +449,7 @@ def _filename_case(draw, tier):
                 # how the scalars are referenced: '{name}', '{name!s}', or
                 # right-aligned in a field whose width is another parameter
                 # ('{name!s:>{fw}}': nested replacement field of str.format)
-                spec=draw(st.sampled_from([None, None, "conv_s",
-                                           "nested_width", "int_d"])))
+                spec=spec)
 
 
 PARTS = [
@@ -812,13 +831,34 @@ class Run(object):
 
 
 def _img_params(p):
-    """public image of a SimulationParameters object"""
-    return p.to_dict()
+    """public image of a SimulationParameters object: what to_dict() shows
+    plus what the object itself holds (a lossy normalisation inside the
+    library's own to_dict would otherwise hide on both sides)"""
+    d = dict(p.to_dict())
+    d["observed_parameters"] = dict(p.parameters)
+    d["observed_unpack_index"] = p.unpack_index
+    d["observed_num_variations"] = p.get_num_unpacked_variations()
+    d["observed_unpacked_names"] = sorted(p.unpacked_parameters)
+    return d
+
+
+def _img_result(r):
+    d = dict(r.to_dict())
+    d["observed"] = dict(value=r._value, total=r._total,
+                         num_updates=r.num_updates,
+                         value_list=list(r._value_list),
+                         total_list=list(r._total_list))
+    return d
 
 
 def _img_results(s):
     d = dict(s.to_dict())
     d["current_rep"] = s.current_rep
+    d["observed_results"] = dict(
+        (nm, [_img_result(r)["observed"] for r in s[nm]])
+        for nm in s.get_result_names())
+    if s.params is not None:
+        d["observed_params"] = _img_params(s.params)
     return d
 
 
@@ -1024,7 +1064,12 @@ def _check_results(case, ctx):
         sp, marked = _make_params(SimulationParameters, case["params"],
                                   case["use_create"])
         s = SimulationResults()
-        s.set_parameters(sp)
+        own = sp
+        if case.get("child") is not None and marked:
+            kids = sp.get_unpacked_params_list()
+            if kids:
+                own = kids[case["child"] % len(kids)]
+        s.set_parameters(own)
         for spec in case["results"]:
             for hist in spec["histories"]:
                 s.append_result(_make_result(Result, spec, hist))
@@ -1055,6 +1100,13 @@ def _check_results(case, ctx):
               "results:current_rep=%s" % ("default" if case["current_rep"] ==
                                           -1 else "set"),
               "results:embed=%d" % min(len(case["embed"]), 3))
+    if s.params is not sp:
+        ctx.label("results:params_are_an_unpacked_child")
+        tags_child = s.params.unpack_index
+        if tags_child < 0:
+            raise Violation("child_unpack_index", "a child of "
+                            "get_unpacked_params_list has unpack_index %r" %
+                            tags_child, dict(part="results"))
     ctx.nontrivial((_has_np(seen) or has_np_result) and len(marked) >= 1)
     unp_arrays = [sp[n] for n in marked if isinstance(sp[n], np.ndarray)]
     res_objs = [r.to_dict() for nm in s.get_result_names() for r in s[nm]]
@@ -1062,7 +1114,7 @@ def _check_results(case, ctx):
                 current_rep_set=case["current_rep"] != -1,
                 has_unnameable_array_param=any(
                     isinstance(v, np.ndarray) and not _nameable(v)
-                    for v in sp.parameters.values()),
+                    for v in s.params.parameters.values()),
                 **_flags([sp.parameters, res_objs], unp_arrays))
 
     embed = list(case["embed"])
@@ -1100,7 +1152,7 @@ def _check_results(case, ctx):
         # every Result on its own
         for nm in sorted(s_full.get_result_names()):
             for r in s_full[nm]:
-                _roundtrips(run, "_result", r, lambda x: x.to_dict(), Result,
+                _roundtrips(run, "_result", r, _img_result, Result,
                             dict(tags, obj="result"))
 
     def file_names():
@@ -1257,9 +1309,26 @@ def _check_filename(case, ctx):
             na = a.get_filename_with_replaced_params(tpl)
             na2 = a2.get_filename_with_replaced_params(tpl)
             nb = b.get_filename_with_replaced_params(tpl)
-        except (ValueError, TypeError):
+        except (ValueError, TypeError) as exc:
+            vals = [_build(d) for sc in case["scalars"] for d in sc["pair"]]
+            if all(_kind(v) == "int" for v in vals):
+                # every value IS an integer (Python or numpy): the spec fits
+                raise Violation("filename_spec_refused_for_integer",
+                                "template %r with integer values %r: %s: %s"
+                                % (tpl, vals[:4], type(exc).__name__, exc),
+                                tags)
             ctx.label("fn:spec_does_not_fit_refused")
             return
+        if all(_kind(_build(sc["pair"][0])) == "int"
+               for sc in case["scalars"]):
+            ctx.label("fn:int_spec_on_integers")
+            want = "res" + "".join(
+                case["sep"] + (format(int(_build(sc["pair"][0])), "d"))
+                for sc in case["scalars"])
+            if not na.startswith(want):
+                raise Violation("filename_int_spec_value", "template %r "
+                                "gives %r, expected it to start with %r" %
+                                (tpl, na, want), tags)
     na = a.get_filename_with_replaced_params(tpl)
     na2 = a2.get_filename_with_replaced_params(tpl)
     nb = b.get_filename_with_replaced_params(tpl)
